@@ -3,7 +3,8 @@
 (* (harness/c07_solvers.cpp) against the status machine of SolverCtl.          *)
 (*                                                                             *)
 (* IOEnv.TRACE names an ndjson file with one solve per line:                   *)
-(*   configuration (minIter, maxIter, minStag, skip), solver traits            *)
+(*   configuration (minIter, maxIter, minStag, skip), the system (mkind, n,    *)
+(*   nfilter, raw = constraints imposed by the filter only), solver traits    *)
 (*   (inner: GMRES-type pseudo iterations between two analysed defects; half:  *)
 (*   BiCGStab-type convergence test after the first half step; breakdown: the  *)
 (*   solver may abort on a non-finite recurrence scalar), the events           *)
@@ -60,8 +61,8 @@ Event ==
   /\ i' = i + 1 /\ UNCHANGED <<k, done>>
 
 \* ---- the end of the solve --------------------------------------------------------------------------------
-Symmetric(m) == m \in {"spd", "spdg", "ispd"}
-DiagDominant(m) == m \in {"spd", "nsym", "ispd", "insym"}
+Symmetric(m) == m \in {"spd", "spdg", "ispd", "one", "sid", "diagev"}
+DiagDominant(m) == m \in {"spd", "nsym", "ispd", "insym", "one", "sid", "diagev"}
 \* systems on which the method is documented / known to converge (the "scope" of the convergence clause)
 InScope ==
   LET s == T.solver  p == T.prec  m == T.mkind IN
@@ -70,7 +71,8 @@ InScope ==
   \/ s \in {"FGMRES", "GMRES", "RGCR", "PMR"} /\ DiagDominant(m) /\ p \in {"none", "jacobi", "sor", "ssor", "ilu"}
   \/ s \in {"BiCGStab", "BiCGStabR", "BiCGStabL", "IDRS", "RBiCGStab"} /\ DiagDominant(m) /\ p \in {"none", "jacobi", "sor", "ssor", "ilu"}
   \/ s = "PCGNR" /\ p \in {"none", "jacobi"}
-  \/ s = "Richardson" /\ ((DiagDominant(m) /\ p \in {"jacobi", "sor"}) \/ (m \in {"spd", "ispd"} /\ p = "ssor") \/ (m = "near1" /\ p = "none"))
+  \* (raw operator + unit filter: the filtered SOR/SSOR sweep is not the sweep of the filtered matrix; Jacobi is)
+  \/ s = "Richardson" /\ (T.raw => p = "jacobi") /\ ((DiagDominant(m) /\ p \in {"jacobi", "sor"}) \/ (m \in {"spd", "ispd"} /\ p = "ssor") \/ (m = "near1" /\ p = "none"))
 
 HalfStepExit ==
   /\ T.half /\ T.retNi = numIter + 1
@@ -106,7 +108,7 @@ EndFails ==
     \cup C(T.havePrev /\ ~T.sameAsPrev, "not_repeatable")
     \cup C(T.tag = "exact_start" /\ ~(T.ret = "success" /\ T.retNi = 0 /\ T.solUnchanged), "exact_start")
     \cup C(T.tag = "zero_rhs" /\ ~(T.ret = "success" /\ T.retNi = 0 /\ T.solZero), "zero_rhs")
-    \cup C(T.scen \in {"converge", "lucky"} /\ InScope /\ ~(T.ret = "success" /\ T.errOk), "no_convergence")
+    \cup C(T.scen \in {"converge", "lucky", "breakdown"} /\ InScope /\ ~(T.ret = "success" /\ T.errOk), "no_convergence")
 
 Finish ==
   /\ ~done /\ i = Len(T.ev)
@@ -117,5 +119,5 @@ Next == Event \/ Finish
 Spec == Init /\ [][Next]_vars
 
 \* one verdict per trace
-Verdict == done => PrintT(ToJson([trace |-> k, events |-> i, fails |-> fails, inscope |-> (T.scen \in {"converge", "lucky"} /\ InScope)]))
+Verdict == done => PrintT(ToJson([trace |-> k, events |-> i, fails |-> fails, inscope |-> (T.scen \in {"converge", "lucky", "breakdown"} /\ InScope)]))
 =============================================================================
